@@ -151,10 +151,15 @@ def popZ (id : Nat) (z : Bytes) : List (Nat × Bytes × Bytes) → Option (Bytes
     if i = id then (if c = z then some (p, q) else none)
     else (popZ id z q).map fun (r, q') => (r, (i, c, p) :: q')
 
+/-- an oracle entry with id `id + 100` states that the real decompressor REJECTS the payload
+(corrupt data, in the state the stream is in): the handler returns FALSE -/
 def St.inflate (s : St) (id : Nat) (z : Bytes) : Res (Bytes × St) :=
   match popZ id z s.zq with
   | some (p, q) => .ok (p, { s with zq := q })
-  | none => .unk "no decompressor oracle entry"
+  | none =>
+    match popZ (id + 100) z s.zq with
+    | some _ => .no
+    | none => .unk "no decompressor oracle entry"
 
 def zidZlib : Nat := 4
 def zidLzo : Nat := 5
@@ -206,6 +211,52 @@ def handleUltra (s : St) (x y w h : Nat) (bs : Bytes) : Res (St × Bytes) := do
   match readPixels s.bpp (w * h) plain with
   | some (ps, _) => pure ({ s with fb := copyRectangle s.fb x y w h ps }, bs)
   | none => .unk "ultra: internal"
+
+/-- the sub-rectangle walk of `HandleUltraZipBPP` over the decompressed data (fixed code: every
+12-byte entry and every raw pixel block must lie inside it); raw sub-rectangles go through
+`GotBitmap` = `CopyRectangle` (the only guard of their geometry is `CheckRect`), other sub-encodings
+are skipped -/
+def uzApply (bpp : Nat) : Nat → FB → Bytes → Option FB
+  | 0, fb, _ => some fb
+  | n + 1, fb, bs =>
+    if bs.length < 12 then none else
+    match readU16 bs with
+    | none => none
+    | some (sx, b1) =>
+    match readU16 b1 with
+    | none => none
+    | some (sy, b2) =>
+    match readU16 b2 with
+    | none => none
+    | some (sw, b3) =>
+    match readU16 b3 with
+    | none => none
+    | some (sh, b4) =>
+    match readU32 b4 with
+    | none => none
+    | some (se, rest) =>
+      if se = 0 then
+        if rest.length < sw * sh * bpp then none else
+        match readPixels bpp (sw * sh) rest with
+        | some (ps, rest') => uzApply bpp n (copyRectangle fb sx sy sw sh ps) rest'
+        | none => none
+      else uzApply bpp n fb rest
+
+/-- `HandleUltraZipBPP`: `x` = number of sub-rectangles, `y + w * 65535` = decompressed size -/
+def handleUltraZip (s : St) (x y w : Nat) (bs : Bytes) : Res (St × Bytes) := do
+  let unc := y + w * 65535
+  let (n, bs) ← ofOpt (readU32 bs)
+  if n = 0 then pure (s, bs) else
+  if n ≥ 2 ^ 31 then .no else
+  if unc = 0 then .no else
+  if unc > 2 ^ 31 - 1 - 504 then .no else
+  let s := if s.rawBuf < unc + 500 then { s with rawBuf := (unc + 500 + 3) / 4 * 4 } else s
+  let (z, bs) ← ofOpt (takeN n bs)
+  let (plain, s) ← s.inflate zidLzo z
+  if (plain.length : Int) > s.rawBuf then .unk "ultrazip: decompressed data exceed raw_buffer" else
+  match uzApply s.bpp x s.fb plain with
+  | some fb => pure ({ s with fb := fb }, bs)
+  | none => .no
 
 def handleZRLE (s : St) (x y w h : Nat) (bs : Bytes) : Res (St × Bytes) := do
   let cp := clientCPix s.fmt
@@ -480,7 +531,8 @@ def handleRect (s : St) (hd : RectHdr) (bs : Bytes) : Res (St × Bytes) :=
       else if e = encZlib then handleZlib s x y w h bs
       else if e = encTight then handleTight s x y w h bs
       else if e = encZRLE then handleZRLE s x y w h bs
-      else if e = encUltraZip ∨ e = encZYWRLE then .unk "encoding not modelled"
+      else if e = encUltraZip then handleUltraZip s x y w bs
+      else if e = encZYWRLE then .unk "encoding not modelled"
       else if e = encQemuExtendedKeyEvent then pure (s, bs)
       else .no : Res (St × Bytes))
     pure (s.log s!"upd:{x}:{y}:{w}:{h}", bs)
@@ -560,10 +612,14 @@ def initClient (s : St) (bs : Bytes) : Res (St × Bytes) := do
   match parseVersion pv with
   | none => .unk "version string not in canonical form"
   | some (major, minor) =>
-    if major = 3 ∧ (minor = 4 ∨ minor = 5 ∨ minor = 6 ∨ minor = 14 ∨ minor = 16) then .unk "UltraVNC/TightVNC legacy minor" else
+    -- legacy minors: 3.4 / 3.6 (UltraVNC), 3.14 / 3.16 (UltraVNC SingleClick: treated as 3.4 / 3.6),
+    -- 3.5 (TightVNC).  They add FileTransfer (bit 7) to client2server[0]; the other bits they set
+    -- belong to messages > 7 and to the server-to-client table the library never consults.
+    let legacy := major = 3 ∧ (minor = 4 ∨ minor = 5 ∨ minor = 6 ∨ minor = 14 ∨ minor = 16)
+    let minor := if major = 3 ∧ (minor = 14 ∨ minor = 16) then minor - 10 else minor
     let cminor := if major = 3 ∧ minor > 8 then 8 else minor
     let (cmajor, cminor) := if (major = 3 ∧ minor > 8) ∨ major > 3 then (3, 8) else (major, cminor)
-    let s := { s with major := cmajor, minor := cminor }
+    let s := { s with major := cmajor, minor := cminor, c2s0 := if legacy then s.c2s0 ||| 0x80 else s.c2s0 }
     let s := s.write (versionBytes cmajor cminor)
     let (s, bs) ← (if cmajor = 3 ∧ cminor > 6 then do
         let (cnt, bs) ← ofOpt (readU8 bs)
